@@ -144,6 +144,7 @@ func checkC15(p *Prog, r *Report) {
 	r.rule("C15.O2", "every Put of a buffer loaded from a container is followed on every path to the exit by forgetting it: the slot is set to nil, the container is replaced, deleted from or truncated, or it is a local that is dead afterwards", 6)
 	r.rule("C15.O3", "the decoder's per-call caches (decodeCache, flagCache) alias packet buffers that are recycled before decode returns: every element read is preceded on every path by a reset of the whole cache", 2)
 	r.rule("C15.O4", "callees handed queued buffers (tx) do not retain them; wire data kept by the core (parse_data) is a fresh pool copy, never a slice of the input", 2)
+	r.rule("C15.O6", "a buffer held in a field that other fields of the same object alias (g = f[n:]) is recycled only together with clearing every such alias in the same block", 0)
 	r.rule("C15.O5", "bufferPool.Put stores into the sync.Pool only under cap(buf) == mtuLimit and stores buf[:cap(buf)]", 1)
 	r.rule("C15.G1", "every unconditional loop of a goroutine body has an exit controlled by a receive from the owner's die channel or by the error of its blocking read", 6)
 	r.rule("C15.G2", "postProcess re-arms its die arm after every processed item on every path and returns on die only when chPostProcessing is empty", 2)
@@ -154,6 +155,8 @@ func checkC15(p *Prog, r *Report) {
 
 	get := p.Method("bufferPool", "Get")
 	put := p.Method("bufferPool", "Put")
+
+	checkFieldAliasesOnPut(p, r, put)
 
 	// ---------------------------------------------------------------- O1
 	for _, s := range p.CallsTo(get) {
@@ -1493,5 +1496,76 @@ func checkStaleCache(p *Prog, r *Report) {
 				r.bad("C15.O3", fi.Name, p.Pos(firstBad), "reads of fecDecoder."+fname, "an element of the cache is read on a path that did not reset the whole cache first: entries left over from the previous group alias buffers that were already recycled (stale shard emitted / recycled twice)", wit)
 			}
 		}
+	}
+}
+
+// checkFieldAliasesOnPut: C15.O6. Field g aliases field f when some store is
+// x.g = x.f[...] (same base object).
+func checkFieldAliasesOnPut(p *Prog, r *Report, put *types.Func) {
+	aliases := map[*types.Var][]*types.Var{} // f -> fields that alias it
+	for _, pkgT := range []string{"UDPSession", "KCP", "fecDecoder", "fecEncoder", "Listener"} {
+		st := structOf(p.Named(pkgT).Underlying())
+		if st == nil {
+			continue
+		}
+		for i := 0; i < st.NumFields(); i++ {
+			g := st.Field(i)
+			if _, isSlice := g.Type().Underlying().(*types.Slice); !isSlice {
+				continue
+			}
+			for _, s := range p.FieldStores(g) {
+				if s.Rhs == nil || s.Base == nil {
+					continue
+				}
+				t := p.Term(s.Rhs)
+				root := t
+				for root.Op == "slice" {
+					root = root.Args[0]
+				}
+				if t.Op == "slice" && root.Op == "fld" && root.Args[0].Key() == s.Base.Key() {
+					if f, ok := root.Obj.(*types.Var); ok && f != g {
+						dup := false
+						for _, x := range aliases[f] {
+							if x == g {
+								dup = true
+							}
+						}
+						if !dup {
+							aliases[f] = append(aliases[f], g)
+						}
+					}
+				}
+			}
+		}
+	}
+	for _, s := range p.CallsTo(put) {
+		if len(s.Args) != 1 || s.Args[0].Op != "fld" {
+			continue
+		}
+		f, _ := s.Args[0].Obj.(*types.Var)
+		al := aliases[f]
+		if len(al) == 0 {
+			continue
+		}
+		base := s.Args[0].Args[0]
+		c := p.CFG(s.Fn)
+		pt, _ := c.PointOf(s.Call)
+		var missing []string
+		for _, g := range al {
+			cleared := false
+			for _, nd := range pt.B.Nodes {
+				if as, ok := nd.(*ast.AssignStmt); ok {
+					for i, l := range as.Lhs {
+						if p.Term(l).Key() == tFld(base, g).Key() && i < len(as.Rhs) && p.Term(as.Rhs[i]).Op == "nil" {
+							cleared = true
+						}
+					}
+				}
+			}
+			if !cleared {
+				missing = append(missing, g.Name())
+			}
+		}
+		r.check(len(missing) == 0, "C15.O6", s.Fn.Name, p.Pos(s.Call), "Put("+exprString(s.Call.Args[0])+")", "all aliasing fields cleared with it", fmt.Sprintf("the buffer is recycled while %v still points into it: a later read through that field returns bytes another owner of the pooled buffer has written (the stream is altered after Close, for example)", missing))
 	}
 }
